@@ -106,7 +106,8 @@ def classify_failed(fname, g):
         if c.get("what") == "Estimator::cost entry":
             spec = est_cost_spec(c["weights"], c["datasets"])
             k = c["index"]
-            d.update({"weights": c["weights"], "datasets": c["datasets"], "index": k,
+            d.update({"weights": c["weights"], "datasets": c["datasets"], "index": k, "n_new": c.get("n_new"),
+                      "operations": c.get("operations"),
                       "specified (w_i/sum w) * loss(reldiff)/n_i": spec[k] if k < len(spec) else None})
             found = k >= len(spec) or not close(spec[k], c["impl"], 1e-7)
         elif "reldiff" in c:
@@ -218,6 +219,13 @@ def run(ctx):
             est_bad.append({"why": "model-generated data (prediction == target) must give zero cost and zero MARD", "scenario": sc})
         if len(cost) != len(sc["cost_scaled"]) or any(not close(a, b, 1e-13) for a, b in zip(cost, sc["cost_scaled"])):
             est_bad.append({"why": "cost changed when all weights were multiplied by %r" % sc["scale"], "scenario": sc})
+        if len(cost) != len(sc["cost_single_new"]) or any(not close(a, b, 1e-13) for a, b in zip(cost, sc["cost_single_new"])):
+            est_bad.append({"why": "Estimator built by new(first %d sets) + add_data(rest) has a different cost than Estimator::new with "
+                                   "the same (weight, data set) pairs (est_cost_history_independent)" % sc["n_new"],
+                            "case": {"weights": ws, "datasets": sc["datasets"], "n_new": sc["n_new"], "cost": cost,
+                                     "cost_single_new": sc["cost_single_new"]}})
+        if sc["n_predict"] != len(ws) or sc["n_datasets"] != len(ws):
+            est_bad.append({"why": "Estimator::predict / datasets do not return one entry per stored data set", "scenario": sc})
         flat = []
         for w, pc in zip(ws, sc["per_dataset_cost"]):
             flat += [c * (w / sum(ws)) for c in pc]
@@ -329,7 +337,7 @@ def run(ctx):
         "library_files": lib["library_files"],
         "axioms_reported": lib["axioms"],
         "correspondence_goals": {k: {"emitted": v[0], "proved": v[1]} for k, v in sorted(by_kind.items())},
-        "correspondence_goal_kinds": {"loss": "Loss::apply vs loss_apply", "est": "Estimator::cost entries / length, MARD vs est_cost, mard",
+        "correspondence_goal_kinds": {"loss": "Loss::apply vs loss_apply", "est": "Estimator driven through random operation sequences (new with k sets, then add_data ...): cost entries / length vs est_cost_st (est_run (est_new ..) ..), MARD vs mard",
                                       "tcorr": "PcSaft *_correlation vs visc_corr/diff_corr/tc_corr",
                                       "tref": "PcSaft *_reference (SI) vs visc_ref/diff_ref/tc_ref",
                                       "tstate": "State value vs entropy_scaling reference ln_reduced; SAFT-VRQ Mie viscosity_correlation"},
@@ -388,8 +396,8 @@ def replay(rp):
         elif r["kind"] == "estimator":
             spec = est_cost_spec(r["weights"], r["datasets"])
             bad = len(spec) != len(r["cost"]) or any(not close(a, b, 1e-7) for a, b in zip(spec, r["cost"]))
-            print("  Estimator::cost(weights=%r) = %r ; specified (w_i/sum w) loss(reldiff)/n_i = %r -> %s"
-                  % (r["weights"], r["cost"], spec, "DEVIATES" if bad else "agrees"))
+            print("  Estimator[new(first %s sets) + add_data(rest)]::cost(weights=%r) = %r ; specified (w_i/sum w) loss(reldiff)/n_i = %r -> %s"
+                  % (r.get("n_new"), r["weights"], r["cost"], spec, "DEVIATES" if bad else "agrees"))
             reproduced += bad
     if not res:
         print(json.dumps(rp, indent=1)[:6000])
